@@ -180,6 +180,9 @@ pub fn drop_specimens() {
 pub enum Damage {
     Flip { file: usize, pos: u64, mask: u8 },
     Multi { file: usize, flips: Vec<(u64, u8)> },
+    /// one byte of a CRC-protected block altered AND the block's CRC recomputed (the flips include the CRC bytes): only the
+    /// pack's own checksum can still notice
+    Refit { file: usize, flips: Vec<(u64, u8)> },
     Zero { file: usize, start: u64, len: u64 },
     Overwrite { file: usize, start: u64, len: u64, seed: u64 },
     Truncate { file: usize, len: u64 },
@@ -192,6 +195,7 @@ impl Damage {
         match self {
             Damage::Flip { file, pos, mask } => json!({"op": "flip", "file": file, "pos": pos, "mask": mask}),
             Damage::Multi { file, flips } => json!({"op": "multi", "file": file, "flips": flips}),
+            Damage::Refit { file, flips } => json!({"op": "crc-refit", "file": file, "flips": flips}),
             Damage::Zero { file, start, len } => json!({"op": "zero", "file": file, "start": start, "len": len}),
             Damage::Overwrite { file, start, len, seed } => json!({"op": "overwrite", "file": file, "start": start, "len": len, "seed": seed}),
             Damage::Truncate { file, len } => json!({"op": "truncate", "file": file, "len": len}),
@@ -204,6 +208,7 @@ impl Damage {
         match jstr(v, "op") {
             "flip" => Damage::Flip { file, pos: ju64(v, "pos"), mask: ju64(v, "mask") as u8 },
             "multi" => Damage::Multi { file, flips: jarr(v, "flips").iter().map(|f| (f[0].as_u64().unwrap_or(0), f[1].as_u64().unwrap_or(1) as u8)).collect() },
+            "crc-refit" => Damage::Refit { file, flips: jarr(v, "flips").iter().map(|f| (f[0].as_u64().unwrap_or(0), f[1].as_u64().unwrap_or(1) as u8)).collect() },
             "zero" => Damage::Zero { file, start: ju64(v, "start"), len: ju64(v, "len") },
             "overwrite" => Damage::Overwrite { file, start: ju64(v, "start"), len: ju64(v, "len"), seed: ju64(v, "seed") },
             "truncate" => Damage::Truncate { file, len: ju64(v, "len") },
@@ -213,13 +218,14 @@ impl Damage {
     }
     pub fn file(&self) -> usize {
         match self {
-            Damage::Flip { file, .. } | Damage::Multi { file, .. } | Damage::Zero { file, .. } | Damage::Overwrite { file, .. } | Damage::Truncate { file, .. } | Damage::Append { file, .. } | Damage::Replace { file, .. } => *file,
+            Damage::Flip { file, .. } | Damage::Multi { file, .. } | Damage::Refit { file, .. } | Damage::Zero { file, .. } | Damage::Overwrite { file, .. } | Damage::Truncate { file, .. } | Damage::Append { file, .. } | Damage::Replace { file, .. } => *file,
         }
     }
     pub fn op(&self) -> &'static str {
         match self {
             Damage::Flip { .. } => "flip",
             Damage::Multi { .. } => "multi",
+            Damage::Refit { .. } => "crc-refit",
             Damage::Zero { .. } => "zero",
             Damage::Overwrite { .. } => "overwrite",
             Damage::Truncate { .. } => "truncate",
@@ -239,7 +245,7 @@ impl Damage {
                     }
                 }
             }
-            Damage::Multi { flips, .. } => {
+            Damage::Multi { flips, .. } | Damage::Refit { flips, .. } => {
                 // the same position may be drawn twice: only positions whose byte ends up different count as changed
                 let before = bytes.clone();
                 for (pos, mask) in flips {
@@ -383,6 +389,39 @@ pub fn enumerate(specs: &[Specimen], seed: u64, tier: Tier, only_covered: bool) 
                     cases.push((si, Damage::Multi { file: fi, flips }));
                 }
             }
+            if only_covered {
+                // CRC-consistent alterations: one byte of a CRC-protected block and the block's CRC refreshed
+                for (bstart, blen) in &view.blocks {
+                    if *blen == 0 {
+                        continue;
+                    }
+                    let picks: Vec<u64> = if s.small && tier == Tier::Thorough && *blen <= 300 { (0..*blen).collect() } else { (0..tier.pick(2, 12)).map(|_| rng.below(*blen)).collect() };
+                    for off in picks {
+                        let pos = bstart + off;
+                        if !is_target(pos) {
+                            continue;
+                        }
+                        // not the first byte of a check block (the check kind): with the CRC refreshed, kind 0 is the format's
+                        // well-formed "no check" declaration (spec/pack.rst), which no pack-level check can tell from an original
+                        if off == 0 && view.spans.iter().any(|sp| sp.check_block && sp.start == *bstart) {
+                            continue;
+                        }
+                        let mask = *rng.pick(&masks);
+                        let mut data = bytes[*bstart as usize..(*bstart + *blen) as usize].to_vec();
+                        data[off as usize] ^= mask;
+                        let new_crc = indep::crc32c_be(&data).to_be_bytes();
+                        let mut flips = vec![(pos, mask)];
+                        for i in 0..4u64 {
+                            let at = bstart + blen + i;
+                            let m = bytes[at as usize] ^ new_crc[i as usize];
+                            if m != 0 {
+                                flips.push((at, m));
+                            }
+                        }
+                        cases.push((si, Damage::Refit { file: fi, flips }));
+                    }
+                }
+            }
             for _ in 0..if s.small { tier.pick(10, 150) } else { tier.pick(8, 80) } {
                 let start = rng.below(len);
                 let l = rng.range(1, 64.min(len - start).max(1));
@@ -483,7 +522,7 @@ pub fn gen_for(seed: u64, tier: Tier, k: u64, oracle: Oracle, work: &Path) -> Va
     // name of the damaged structure (first changed position) for signatures
     let pos = match d {
         Damage::Flip { pos, .. } => Some(*pos),
-        Damage::Multi { flips, .. } => flips.first().map(|f| f.0),
+        Damage::Multi { flips, .. } | Damage::Refit { flips, .. } => flips.first().map(|f| f.0),
         Damage::Zero { start, .. } | Damage::Overwrite { start, .. } => Some(*start),
         Damage::Truncate { len, .. } => Some(*len),
         _ => None,
